@@ -84,7 +84,7 @@ def shrink_world(scn, fails, budget, index=None):
             spec, scn = new, cand
         else:
             break
-    for key in ("sparse", "rules", "instances"):
+    for key in ("sparse", "rules", "instances", "variable_fonts"):
         if spec.get(key) and budget.ok():
             new = copy.deepcopy(spec)
             new[key] = []
